@@ -121,6 +121,22 @@ theorem makeRPN_chars_show (e : E) (hwf : Rpn.WF pyLvl 9 e) (hok : AtomsOK e) :
     makeRPN (flat (shw pyLvl 9 e)) = .ok ((Rpn.post e).map String.toList) :=
   makeRPN_flat_shw e hwf hok
 
+/-- **string → tokens**: on the rewritten string of any statement `lhs=e` with plain names, what
+`operate` does (character-level `makeRPN`, `__double_prime`, stack machine, purge) is what it does on
+the postfix token list `lhs, postfix(e), =` — so T3a–T3d apply to strings. -/
+theorem operate_string_tokens (tr : Tr α) (lhs : Str) (e : Ex) (void : Bool)
+    (hw : WFx e) (hp : PlainNames e) (hq : NoQuote e) (hl : AtomOK (String.ofList lhs)) (hg : GoodTok lhs) :
+    operateRewritten tr (stmtString lhs e) void = operateTokens tr (lhs :: (Expr.post e ++ [['=']])) void := by
+  have hgood : ∀ t ∈ lhs :: (Expr.post e ++ [['=']]), GoodTok t := by
+    intro t ht
+    simp only [List.mem_cons, List.mem_append, List.mem_nil_iff, or_false] at ht
+    rcases ht with rfl | ht | rfl
+    · exact hg
+    · exact goodTok_post e hq hw t ht
+    · exact ⟨'=', rfl, by decide⟩
+  simp only [operateRewritten, evaluateRewritten, makeRPN_stmtString lhs e hw hp hl, doublePrime_id _ hgood,
+    operateTokens]
+
 /-- **T3' (string → value)**: from the rewritten string of the statement `#output=e` on
 (`makeRPN` on characters, `__double_prime`, the stack machine, fetching `#output`, the purge),
 `operate` returns the tree semantics of `e` at every observation and leaves the track exactly as it was. -/
